@@ -494,7 +494,7 @@ fn main() {
     }
     Some("models") => {
       // models <listfile>: each line is the path of an XML text; parse it as a DMN model, build the model evaluator and evaluate every
-      // invocable with an empty input context, all under catch_unwind. Prints one line per file: OK n | ERROR | PANIC <where>.
+      // invocable with an empty input context and with four contexts binding every input data (to a number / string / context / list), all under catch_unwind. Prints one line per file: OK n | ERROR | PANIC <where>.
       let list = std::fs::read_to_string(&args[2]).unwrap_or_default();
       let mut out = String::new();
       for path in list.lines().map(|l| l.trim()).filter(|l| !l.is_empty()) {
@@ -509,8 +509,16 @@ fn main() {
                 for d in defs.decisions() { names.push(d.name().to_string()); }
                 for b in defs.business_knowledge_models() { names.push(b.name().to_string()); }
                 for ds in defs.decision_services() { names.push(ds.name().to_string()); }
-                let ctx = dmntk_feel::context::FeelContext::default();
-                for n in &names { let _ = me.evaluate_invocable(n, &ctx); }
+                // with an empty input context, and with every input data (and every invocable's name) bound to a number, a string, a context and a list
+                let mut ctxs = vec![dmntk_feel::context::FeelContext::default()];
+                let samples = [Value::Number(FeelNumber::from_i128(1)), Value::String("x".to_string()), { let mut c = dmntk_feel::context::FeelContext::default(); c.set_entry(&"a".into(), Value::Number(FeelNumber::from_i128(1))); Value::Context(c) },
+                               Value::List(Values::new(vec![Value::Number(FeelNumber::from_i128(1))]))];
+                for sample in samples.iter() {
+                  let mut c = dmntk_feel::context::FeelContext::default();
+                  for i in defs.input_data() { if let Ok(nm) = dmntk_feel_parser::parse_longest_name(i.name()) { c.set_entry(&nm, sample.clone()); } }
+                  ctxs.push(c);
+                }
+                for ctx in &ctxs { for n in &names { let _ = me.evaluate_invocable(n, ctx); } }
                 format!("OK {}", names.len())
               }
             },
@@ -524,7 +532,7 @@ fn main() {
       }
     }
     Some("modelbatch") => {
-      // modelbatch <xml-file> <context-text>...: build the model once, evaluate every decision (document order) for every context
+      // modelbatch <xml-file> <context-text>...: build the model once, evaluate every decision, then every decision service (document order) for every context
       let xml = std::fs::read_to_string(&args[2]).unwrap_or_default();
       let ctxs: Vec<String> = args[3..].to_vec();
       let r = std::panic::catch_unwind(move || {
@@ -538,10 +546,13 @@ fn main() {
               for c in &ctxs {
                 match dmntk_feel_evaluator::evaluate_context(&scope, c) {
                   Err(e) => out.push_str(&format!("CONTEXT-ERROR {}\n", e)),
-                  Ok(ctx) => for d in defs.decisions() {
-                    let v = std::panic::catch_unwind(std::panic::AssertUnwindSafe(|| me.evaluate_invocable(d.name(), &ctx).to_string())).unwrap_or("PANIC".to_string());
-                    out.push_str(&format!("{}\t{}\t{}\n", d.name(), c, v));
-                  },
+                  Ok(ctx) => {
+                    let names: Vec<String> = defs.decisions().iter().map(|d| d.name().to_string()).chain(defs.decision_services().iter().map(|d| d.name().to_string())).collect();
+                    for name in names {
+                      let v = std::panic::catch_unwind(std::panic::AssertUnwindSafe(|| me.evaluate_invocable(&name, &ctx).to_string())).unwrap_or("PANIC".to_string());
+                      out.push_str(&format!("{}\t{}\t{}\n", name, c, v));
+                    }
+                  }
                 }
               }
             }
@@ -769,13 +780,20 @@ fn main() {
       let is_sym = |x: &str| symbols.contains(&x);
       for parts in &lists {
         // the property's domain: words separated by spaces or joined by ONE additional symbol
-        if is_sym(parts[parts.len() - 1]) || parts.windows(2).any(|w| is_sym(w[0]) && is_sym(w[1])) { continue; }
-        let name = dmntk_feel::Name::new(parts);
-        let canonical = name.to_string();
+        if is_sym(parts[parts.len() - 1]) { continue; }
+        // two additional symbols in a row (`fr**n*s`): such a name resolves when it stands alone, written canonically, with none of its
+        // words bound - the repository's own parser tests use some; everything else about them is outside what works (and is not claimed)
+        let adjacent = parts.windows(2).any(|w| is_sym(w[0]) && is_sym(w[1]));
+        // the name as it is written: words separated by one space, additional symbols glued to their neighbours (written out here,
+        // not taken from Name::new, so that the name the value is bound under does not depend on the code under test)
+        let mut canonical = String::new();
+        for (i, part) in parts.iter().enumerate() { if i > 0 && !is_sym(parts[i - 1]) && !is_sym(part) { canonical.push(' '); } canonical.push_str(part); }
+        let name = dmntk_feel::Name::from(canonical.as_str());
         let spaced = parts.join(" ");
         for with_words in [false, true] {
-          for text in [canonical.clone(), spaced.clone()] {
+          for (ti, text) in [canonical.clone(), spaced.clone()].into_iter().enumerate() {
             for (suffix, expected) in [("", "10"), (" + 1", "11")] {
+              if adjacent && (with_words || ti == 1 || !suffix.is_empty()) { continue; }
               let input = format!("{}{}", text, suffix);
               let (n2, i2, p2) = (name.clone(), input.clone(), parts.clone());
               let r = std::panic::catch_unwind(move || {
